@@ -30,7 +30,7 @@ def generate(sources, langs=None, cfgs=None, chunk=20000, multi=False, extra_fil
             # one case in four (chosen by the source text, so a replay takes the same path) goes through folder-output mode:
             # the definitions of a crate are the same in both modes (C14), so every check also exercises that code path
             mixed = int(hashlib.sha1(src.encode()).hexdigest()[:2], 16) % 4 == 0 and force != "0" and mixed
-            folder = multi or ((force == "1" or mixed) and lang != "go" and not extra_files)
+            folder = multi or ((force == "1" or mixed) and not extra_files)
             folder_flags.append(folder)
             if folder:       # folder-output mode of the library: one crate "cratex", output keyed by the crate name
                 jobs.append({"id": len(jobs), "lang": lang, "multi_file": True, "cfg": cfg,
